@@ -175,6 +175,32 @@ def well_conditioned(P, new, refs, min_gon=25.0):
     return True
 
 
+def not_collinear(P, ids, rel=0.15):
+    """the three centres of a distance intersection must not be (nearly) collinear: otherwise the mirror image of
+    the new point in their line fits all three distances as well and the documented strategy rightly refuses"""
+    a, b, c = (P[i] for i in ids[:3])
+    cross = abs((b["x"] - a["x"]) * (c["y"] - a["y"]) - (b["y"] - a["y"]) * (c["x"] - a["x"]))
+    side = max(math.hypot(b["x"] - a["x"], b["y"] - a["y"]), math.hypot(c["x"] - a["x"], c["y"] - a["y"]),
+               math.hypot(c["x"] - b["x"], c["y"] - b["y"]))
+    return cross / side > rel * side          # height of the triangle over its longest side
+
+
+def off_danger_circle(P, new, refs, rel=0.15):
+    """resection: the new point must stay clear of the circle through any three of the reference points"""
+    import itertools
+    for a, b, c in itertools.combinations(refs, 3):
+        ax, ay, bx, by, cx, cy = P[a]["x"], P[a]["y"], P[b]["x"], P[b]["y"], P[c]["x"], P[c]["y"]
+        d = 2 * (ax * (by - cy) + bx * (cy - ay) + cx * (ay - by))
+        if abs(d) < 1e-9:
+            continue
+        ux = ((ax * ax + ay * ay) * (by - cy) + (bx * bx + by * by) * (cy - ay) + (cx * cx + cy * cy) * (ay - by)) / d
+        uy = ((ax * ax + ay * ay) * (cx - bx) + (bx * bx + by * by) * (ax - cx) + (cx * cx + cy * cy) * (bx - ax)) / d
+        R = math.hypot(ax - ux, ay - uy)
+        if abs(math.hypot(P[new]["x"] - ux, P[new]["y"] - uy) - R) < rel * R:
+            return False
+    return True
+
+
 def attach(B, how):
     """attach one new point by strategy `how`; returns its id or None when geometry was unsuitable"""
     rng = B.rng
@@ -221,7 +247,7 @@ def attach(B, how):
             xy = B.new_xy()
             B.P["_"] = {"x": xy[0], "y": xy[1]}
             ss = rng.sample(known, 3)
-            ok = well_conditioned(B.P, "_", ss)
+            ok = well_conditioned(B.P, "_", ss) and not_collinear(B.P, ss)
             del B.P["_"]
             if ok:
                 break
@@ -244,7 +270,7 @@ def attach(B, how):
             xy = B.new_xy()
             B.P["_"] = {"x": xy[0], "y": xy[1]}
             ss = rng.sample(known, min(len(known), rng.choice([4, 4, 5])))
-            ok = well_conditioned(B.P, "_", ss, 20.0)
+            ok = well_conditioned(B.P, "_", ss, 20.0) and off_danger_circle(B.P, "_", ss)
             del B.P["_"]
             if ok:
                 break
